@@ -500,6 +500,7 @@ impl Check for C20 {
             blind_seed: rng.next_u64(),
             seed_nonce: if with_seed { Some(rng.next_u64()) } else { None },
             zero_blind: vec![],
+            same_as_prev: vec![],
         };
         let mut drop_order: Vec<usize> = (0..6).collect();
         rng.shuffle(&mut drop_order);
